@@ -37,9 +37,9 @@ man = {
     "setup_cmd": "true",
     "hooks": {"guard": "ZAPPING_VBI_ZVBI_VERIF",
               "enable": "checks compile the real /repo/src/*.c with goto-cc -DZAPPING_VBI_ZVBI_VERIF; "
-                        "loop contracts are ZVBI_LOOP_CONTRACT(...) lines that expand to nothing without the guard",
+                        "loop contracts are ZVBI_LOOP_CONTRACT(...) / ZVBI_GHOST(...) lines that expand to nothing without the guard (the opening brace of an annotated loop moves to its own line; token stream with the guard off is unchanged)",
               "baseline_off_cmd": "cd /repo && make -j8 >/dev/null && make check",
-              "source_commits": hooks, "add_only": True},
+              "source_commits": hooks, "add_only": False},
     "engines": [{"name": "cbmc-contracts", "path": "/verif/check",
                  "serves_properties": [c["property_id"] for c in checks],
                  "kind_free_text": "CBMC 6.11 function and loop contracts (goto-instrument --dfcc) enforced on the "
